@@ -31,9 +31,9 @@ func runClientConnRT(t *testing.T, seed int64, log *traceLog) {
 	caddr := &net.UDPAddr{IP: net.IPv4(10, 0, 0, 11).To4(), Port: 40001}
 	sconn, cconn := mn.MustListen(saddr), mn.MustListen(caddr)
 	srv := &ccServer{conn: sconn, client: caddr, log: log, rng: rng, relayed: &net.UDPAddr{IP: net.IPv4(10, 0, 0, 1).To4(), Port: 50001}}
-	const writers, rounds = 16, 12
+	const writers, rounds = 16, 60
 	for i := 0; i < writers*rounds; i++ {
-		srv.peers = append(srv.peers, ccPeer{fmt.Sprintf("P%d", i), 1, &net.UDPAddr{IP: net.IPv4(10, 2, byte(i/200), byte(1+i%200)).To4(), Port: 5001}})
+		srv.peers = append(srv.peers, ccPeer{fmt.Sprintf("P%d", i), 1, &net.UDPAddr{IP: net.IPv4(10, byte(2+i/40000), byte((i/200)%200), byte(1+i%200)).To4(), Port: 5001}})
 	}
 	srv.policy = func(string) string { return "ok" }
 	go srv.run()
@@ -70,11 +70,12 @@ func runClientConnRT(t *testing.T, seed int64, log *traceLog) {
 				}
 				_, werr := relay.WriteTo(pay, p.addr)
 				log.add(map[string]any{"e": "WriteRet", "pay": id, "ok": werr == nil})
-				// a second datagram to the same peer once the first is out (ChannelData when the binding is there)
-				id2 := id + "b"
-				log.add(map[string]any{"e": "WriteCall", "p": p.rec(), "pay": id2})
-				_, werr = relay.WriteTo([]byte(id2+"|y"), p.addr)
-				log.add(map[string]any{"e": "WriteRet", "pay": id2, "ok": werr == nil})
+				if r%8 == 7 { // now and then a second datagram to the same peer (ChannelData once the binding is there)
+					id2 := id + "b"
+					log.add(map[string]any{"e": "WriteCall", "p": p.rec(), "pay": id2})
+					_, werr = relay.WriteTo([]byte(id2+"|y"), p.addr)
+					log.add(map[string]any{"e": "WriteRet", "pay": id2, "ok": werr == nil})
+				}
 				round.Add(1)
 			}
 		}()
